@@ -24,7 +24,7 @@ from plumpy.base import state_machine
 from .. import ckpt, programs
 from ..ckpt import PS, through
 from ..vloop import Horizon, VLoop
-from .c19 import CountingLoader
+from .c19 import CountingLoader, StrictLoader
 
 ID = 'C07'
 MEDIA = ('pickle', 'deepcopy', 'yaml')
@@ -180,7 +180,8 @@ class SnapWorld:
         self.loop: Optional[VLoop] = None
         self.pre_pause_status = None
         self.n_choice = 0
-        self.custom = CountingLoader()
+        self.custom = StrictLoader()  # knows its own identifiers only
+        self.lenient = CountingLoader()  # (handed over explicitly when loading: then it is asked for everything)
 
     def save_ctx(self) -> Optional[persistence.LoadSaveContext]:
         return persistence.LoadSaveContext(loader=self.custom) if self.loader_mode == 'custom' else None
@@ -266,7 +267,7 @@ def verify(world: SnapWorld, with_load_ctx_loader: bool) -> List[Tuple[str, Dict
         loop = VLoop()
         loop.install()
         try:
-            ctx = persistence.LoadSaveContext(loop=loop, loader=world.custom) if with_load_ctx_loader else \
+            ctx = persistence.LoadSaveContext(loop=loop, loader=world.lenient) if with_load_ctx_loader else \
                 persistence.LoadSaveContext(loop=loop)
             try:
                 loaded = bundle.unbundle(ctx)
